@@ -1,5 +1,6 @@
 """C01 - mass conservation at every node at every reported step (invariant per reported row)."""
 from .. import gen, e1, inv, world
+from ..oracles import V
 from .base import Prop, verdict, bump, event_kinds, ngrams
 
 
@@ -30,6 +31,11 @@ class InvProp(Prop):
             return verdict('violation', [vv], c, dig, sample=world.summary(scn))
         if kind.startswith('discard'):
             return verdict('discard', [], c, dig, discard=kind[8:], sim_seconds=sims, sample=world.summary(scn))
+        rows_ = inv.rows(out.tables) if out.tables is not None else []
+        if any(b_ <= a_ for a_, b_ in zip(rows_, rows_[1:])):
+            # a time reported twice or going back: the per-row invariants are undefined; this is the violation
+            return verdict('violation', [V(self.id.lower() + '.report_index_not_increasing', 'index', 'reported times %r' % (rows_[:14],))], c, dig,
+                           sample=world.summary(scn))
         viol = self.oracle(scn, out, c)
         nt = self.nontrivial(scn, out, c)
         nruns = 1
